@@ -115,7 +115,8 @@ func init() {
 		}
 		bf := "the k-th transport Write/Writev (what=0) or Flush (what=1) fails, or the transport Read fails (what=2), on synchronous and queued channels, with three writes issued; exception handler absent / forwarding / swallowing"
 		// (q, what, k, exmode)
-		for _, c := range [][]int64{{2, 0, 1, 0}, {2, 1, 1, 1}, {1, 0, 2, 2}, {0, 0, 1, 0}, {0, 1, 2, 1}, {0, 2, 1, 0}, {2, 2, 1, 2}, {0, 3, 1, 0}, {0, 3, 2, 1}, {0, 3, 1, 2}} {
+		for _, c := range [][]int64{{2, 0, 1, 0}, {2, 1, 1, 1}, {1, 0, 2, 2}, {0, 0, 1, 0}, {0, 1, 2, 1}, {0, 2, 1, 0}, {2, 2, 1, 2}, {0, 3, 1, 0}, {0, 3, 2, 1}, {0, 3, 1, 2},
+			{2, 10, 1, 2}, {1, 21, 1, 2}, {2, 20, 2, 1}, {1, 11, 1, 0}} { // plain / timeout errors from the sender's write, swallowing handler
 			quick = append(quick, &Job{Pkg: "", Func: "ZZ_C07_TransportFault", Args: c, Bounds: bf})
 		}
 		for _, c := range [][]int64{{2, 0, 2, 1}, {2, 1, 2, 0}, {1, 1, 1, 2}, {0, 0, 3, 2}, {1, 2, 1, 1}, {3, 0, 1, 0}} {
